@@ -1127,9 +1127,13 @@ def _item_of(v):
     return u[1][0], int(u[1][1].const_value())
 
 
-def _eval_plain(ctx, rel, qual, cfg, kind, truths=(), fresh=False, inline=None):
+def _eval_plain(ctx, rel, qual, cfg, kind, truths=(), fresh=False, inline=None, defaults=()):
     fn = ctx.src.func(rel, qual)
     env, facts = cfg_env(cfg, None, extra_truths=truths)
+    a = fn.args
+    for p_, d in zip([x.arg for x in a.args][::-1], (a.defaults or [])[::-1]):
+        if p_ in defaults and isinstance(d, ast.Constant):
+            env[p_] = F.sym(str(d.value)) if isinstance(d.value, bool) or d.value is None else F.const(d.value)
     ev = GenEval(ctx, fn, env=env, facts=facts, inline=_inline(ctx, kind) if inline is None else inline, fresh_arrays=fresh)
     ev.run(fn.body)
     return ev, fn
@@ -1256,7 +1260,7 @@ def r5_typestate(ctx):
         tag = f"_init_dva_part ({'uncoupled' if unc else 'coupled'})"
         try:
             ev, fn = _eval_plain(ctx, BASE, "_BaseODE._init_dva_part", {"unc": unc, "m": "unc" if unc else "coupled", "rf": True, "k": True, "real": True}, "real",
-                                 fresh=True, inline=inl)
+                                 fresh=True, inline=inl, defaults=("istime",))
         except Unsupported as e:
             ctx.error(f"{tag}: initial arrays", None, str(e))
             continue
@@ -1278,6 +1282,198 @@ def r5_typestate(ctx):
                       None if ok else [repr(c["value"]) for c in cells])
 
 
+# ---------------------------------------------------------------------------------------------------------------- effects on the solver object
+ENTRY = ("tsolve", "generator", "finalize", "get_f2x")
+
+
+def r7_constructor_state_is_read_only(ctx):
+    """no method reachable from tsolve / generator (and the generator bodies) / finalize / get_f2x stores in place into an array the constructor
+    computed: such a store changes every later solution of the same solver object, so the generator no longer reproduces the batch solution"""
+    from .c08_effects import Program
+    files = [BASE, UNC, SE2, CDF]
+    prog = Program(ctx, files)
+    evidence = prog.array_evidence(files)
+    nfun = 0
+    reported = set()
+    for cls in ("SolveUnc", "SolveCDF", "SolveExp2"):
+        if cls not in prog.classes:
+            raise AnchorError(f"class {cls}")
+        protected = prog.ctor_attrs(cls)
+        funcs = prog.reachable(cls, ENTRY)
+        # generator bodies are started by generator(): reachable through self.<name>(...) calls already
+        for fn, c, dc in funcs:
+            writes, _ = prog.analyse(fn, c, dc)
+            bad = []
+            for o, node, how in writes:
+                if o[0] != "attr":
+                    continue
+                comp = o[1].split(".")
+                if len(comp) < 2 or comp[1] not in protected:
+                    continue
+                if how.startswith("augmented assignment") and o[1] not in evidence:
+                    continue          # a number: `n += 1` rebinds
+                bad.append((o[1], node, how))
+            q = f"{dc + '.' if dc else ''}{fn.name}"
+            if (q, cls) in reported:
+                continue
+            reported.add((q, cls))
+            nfun += 1
+            if bad:
+                for path, node, how in bad:
+                    ctx.fail(f"{q} (as reached from {cls}.{'/'.join(ENTRY)}): stores in place into `{path}`, which the constructor computed and every "
+                             "later solution of this solver object reads", node,
+                             {"how": how, "statement": ast.unparse(node)[:120],
+                              "consequence": "the first solution damages the solver; a later generator run (or tsolve) no longer solves the system it was built for"},
+                             key=f"C08-R7|{q}|{path}")
+            else:
+                ctx.ok(f"{q} (as reached from {cls}): no in-place store into an array the constructor computed", fn)
+    ctx.check(nfun >= 20, f"effect rule bound to {nfun} reachable functions", BASE + ":1", nontrivial=False)
+
+
+# ---------------------------------------------------------------------------------------------------------------- partition typing
+from .e3_spaces import Arr, Typer  # noqa: E402
+
+
+class TraceTyper(Typer):
+    """E3 typer run over the statements one configuration actually executes (branches are already resolved by value, helpers are entered with
+    the types of their arguments), so the index-space equivalences of the configuration hold for the whole run"""
+
+    def __init__(self, *a, **k):
+        super().__init__(*a, **k)
+        self.ret_types = {}
+
+    def call(self, node):
+        if id(node) in self.ret_types:
+            return self.ret_types[id(node)]
+        return super().call(node)
+
+
+def type_trace(trace, attrs, params, equiv, label, bad, checked):
+    def report(kind, node, detail):
+        bad.setdefault(id(node), []).append((kind, node, detail, label))
+
+    T = TraceTyper(attrs, params, O.SIZE_NAMES, report, label)
+    T.attrs.setdefault("self._force", Arr("N", None))
+    T.equiv = list(equiv)
+    frames = []
+    for ev in trace:
+        if ev[0] == "stmt":
+            st = ev[1]
+            if isinstance(st, ast.Return) and frames:
+                frames[-1]["ret"] = T.ty(st.value) if st.value is not None else None
+            elif isinstance(st, (ast.Assign, ast.AugAssign, ast.AnnAssign, ast.Expr, ast.Return)):
+                T.stmt(st)
+        elif ev[0] == "bind":
+            T.env[ev[1]] = Arr("N", None)
+        elif ev[0] == "enter":
+            node, fn = ev[1], ev[2]
+            names = [a.arg for a in fn.args.posonlyargs + fn.args.args]
+            if names and names[0] in ("self", "cls") and isinstance(node.func, ast.Attribute):
+                names = names[1:]
+            new = {}
+            for p_, a in zip(names, node.args):
+                new[p_] = T.ty(a)
+            for k in node.keywords:
+                if k.arg in names:
+                    new[k.arg] = T.ty(k.value)
+            frames.append({"env": T.env, "node": node, "ret": None})
+            T.env = new
+        elif ev[0] == "exit":
+            fr = frames.pop()
+            T.env = fr["env"]
+            T.ret_types[id(fr["node"])] = fr["ret"]
+    for n in T.checked:
+        checked[id(n)] = n
+
+
+def _equiv(cfg, mode):
+    if mode != "U":
+        return []
+    if cfg.get("k", True) and not cfg.get("rf", True):
+        return [("N", "K")]
+    if cfg.get("rf", True) and not cfg.get("k", True):
+        return [("N", "RF")]
+    return []
+
+
+def r6_typing(ctx):
+    U, E, X = O.mode_U(), O.mode_E(), O.exp2_attrs()
+    dpar = {1: Arr("N", None, "d"), 2: Arr("N", None, "v")}
+    plan = [("real", U, "mode U", u_configs()), ("cdf", U, "mode U", u_configs()), ("complex", E, "mode E", cx_configs()), ("se2", X, "SolveExp2", se2_configs())]
+    for kind, attrs, label, configs in plan:
+        rel, qual, mode = GENS[kind]
+        fn = ctx.src.func(rel, qual)
+        names = [a.arg for a in fn.args.args]
+        params = {names[1]: dpar[1], names[2]: dpar[2], names[-1]: Arr("N", None)}
+        if mode == "E":
+            params[names[3]] = Arr("N", None, "a")
+        bad, checked = {}, {}
+        for cfg in configs:
+            for which in ("pos", "addon"):
+                try:
+                    arm = run_arm(ctx, kind, cfg, which, generic_prefix="carry:")
+                except Unsupported as e:
+                    ctx.error(f"{qual} [{label}] ({cfg_tag(cfg)}, {which}): not evaluated", fn, str(e))
+                    continue
+                type_trace(arm.ev.trace, attrs, params, _equiv(cfg, mode), label, bad, checked)
+        _report_typing(ctx, qual, label, bad, checked)
+    # the get_f2x family and the allocation of the arrays
+    jobs = []
+    for cdf in (False, True):
+        for rf in (False, True):
+            for velo in (False, True):
+                jobs.append((UNC, "SolveUnc.get_f2x", "real", U, "mode U", {"order": 1, "rf": rf, "k": True, "cdf": cdf, "m": "unc", "real": True, "unc": True}, velo))
+    for mass in (None, "unc", "coupled"):
+        for velo in (False, True):
+            jobs.append((UNC, "SolveUnc._get_f2x_complex_unc", "complex", E, "mode E",
+                         {"order": 1, "m": mass, "real": True, "rb": True, "k": True, "rf": True, "unc": mass != "coupled"}, velo))
+            for rf in (False, True):
+                jobs.append((SE2, "SolveExp2.get_f2x", "se2", X, "SolveExp2", {"order": 1, "rf": rf, "k": True, "m": mass, "unc": mass != "coupled", "real": True}, velo))
+    by = {}
+    for rel, qual, kind, attrs, label, cfg, velo in jobs:
+        fn = ctx.src.func(rel, qual)
+        names = [a.arg for a in fn.args.args]
+        env, facts = cfg_env(cfg, None, extra_truths=[(F.sym(names[2]), velo)])
+        ev = GenEval(ctx, fn, env=env, facts=facts, inline=_inline(ctx, kind), refhook=F2xCanon(names[1]), strict=True)
+        bad, checked = by.setdefault((qual, label), ({}, {}))
+        try:
+            ev.run(fn.body)
+        except Unsupported as e:
+            ctx.error(f"{qual} [{label}] ({cfg_tag(cfg)}): not evaluated", fn, str(e))
+            continue
+        type_trace(ev.trace, attrs, {names[1]: Arr(None, "N")}, _equiv(cfg, "U" if label != "mode E" else "E"), label, bad, checked)
+    for (qual, label), (bad, checked) in by.items():
+        _report_typing(ctx, qual, label, bad, checked)
+    inl = G.inline_table(ctx, [(BASE, "_BaseODE")], exclude=("_init_dva_part", "_init_dva", "generator", "tsolve", "fsolve", "finalize"))
+    bad, checked = {}, {}
+    for unc in (True, False):
+        try:
+            ev, fn = _eval_plain(ctx, BASE, "_BaseODE._init_dva_part", {"unc": unc, "m": "unc" if unc else "coupled", "rf": True, "k": True, "real": True}, "real",
+                                 inline=inl, defaults=("istime",))
+        except Unsupported as e:
+            ctx.error("_BaseODE._init_dva_part [mode U]: not evaluated", None, str(e))
+            continue
+        names = [a.arg for a in fn.args.args]
+        type_trace(ev.trace, U, {names[2]: Arr("N", None), names[3]: Arr("N", None, "d"), names[4]: Arr("N", None, "v"), "d": dpar[1], "v": dpar[2]}, [], "mode U",
+                   bad, checked)
+    _report_typing(ctx, "_BaseODE._init_dva_part", "mode U", bad, checked)
+
+
+def _report_typing(ctx, qual, label, bad, checked):
+    seen = set()
+    for lst in bad.values():
+        for kind, node, detail, lab in lst:
+            key = f"C08-R6|{qual}|{label}|{kind}|{ast.unparse(node)[:90]}"
+            if key in seen:
+                continue
+            seen.add(key)
+            ctx.fail(f"{qual} [{label}]: {kind}", node, detail, key=key)
+    for i, node in checked.items():
+        if i in bad:
+            continue
+        ctx.ok(f"{qual} [{label}]: `{ast.unparse(node)[:70]}` index/operand spaces agree", node)
+
+
 RULES = [
     ("C08-R1", r1_carried_state, 30),
     ("C08-R2", r2_step_equals_batch, 40),
@@ -1286,4 +1482,6 @@ RULES = [
     ("C08-R3c", r3c_complex_addon, 80),
     ("C08-R4", r4_get_f2x, 8),
     ("C08-R5", r5_typestate, 9),
+    ("C08-R6", r6_typing, 40),
+    ("C08-R7", r7_constructor_state_is_read_only, 20),
 ]
